@@ -93,6 +93,112 @@ binop("mul", "impl_op_ex", 1, "op_mul_dual2_dual2", "Mul", "mul", "&Dual2", "&Du
       body_start="proof { a.lemma_view_props(); b.lemma_view_props(); }", after=HINT2("Dual2", MUL2, MUL2))
 
 
+
+# ---- Number container (C18): same arithmetic as the contained kinds; Dual/Dual2 mixes are refused
+NUMOPS = {
+    # op: (file, Tr, m, real-expr, idx NN, (macro, idx) N-f64, idx f64-N or None, names)
+    "add": ("add", "Add", "add", "{x} + {y}", ("impl_op_ex", 2), ("impl_op_ex_commutative", 2), None, True),
+    "sub": ("sub", "Sub", "sub", "{x} - {y}", ("impl_op_ex", 6), ("impl_op_ex", 7), ("impl_op_ex", 8), False),
+    "mul": ("mul", "Mul", "mul", "{x} * {y}", ("impl_op_ex", 2), ("impl_op_ex_commutative", 2), None, True),
+    "div": ("div", "Div", "div", "{x} / {y}", ("impl_op_ex", 6), ("impl_op_ex", 7), ("impl_op_ex", 8), False),
+    "rem": ("rem", "Rem", "rem", "r_rem({x}, {y})", ("impl_op_ex", 6), ("impl_op_ex", 7), ("impl_op_ex", 8), False),
+}
+NUM_EXTRA = []
+
+
+def num_specs(op):
+    file, Tr, m, rexpr, nn, nf, fn_, comm = NUMOPS[op]
+    nz = op in ("div", "rem")
+    def nm(l, r):  # name of the contained-kind operator body
+        if comm and l == "f64":
+            return f"op_{op}_{r}_f64", True
+        return f"op_{op}_{l}_{r}", False
+    def call(kind, l, r, la, ra, res=None):
+        n, sw = nm(l, r)
+        a1, a2 = (ra, la) if sw else (la, ra)
+        if kind == "req":
+            return f"{n}_req({a1}, {a2})"
+        return f"{n}_post({a1}, {a2}, {res})"
+    fr = rexpr.format(x="f@", y="g@")
+    req_ff = "g@ != 0real" if nz else "true"
+    NN_req = f"""match (*a, *b) {{
+        (Number::F64(f), Number::F64(g)) => {req_ff},
+        (Number::F64(f), Number::Dual(d)) => {call('req', 'f64', 'dual', '&f', '&d')},
+        (Number::F64(f), Number::Dual2(d)) => {call('req', 'f64', 'dual2', '&f', '&d')},
+        (Number::Dual(d), Number::F64(g)) => {call('req', 'dual', 'f64', '&d', '&g')},
+        (Number::Dual(d), Number::Dual(e)) => {call('req', 'dual', 'dual', '&d', '&e')},
+        (Number::Dual(_), Number::Dual2(_)) => false,
+        (Number::Dual2(d), Number::F64(g)) => {call('req', 'dual2', 'f64', '&d', '&g')},
+        (Number::Dual2(_), Number::Dual(_)) => false,
+        (Number::Dual2(d), Number::Dual2(e)) => {call('req', 'dual2', 'dual2', '&d', '&e')},
+    }}"""
+    NN_post = f"""match (*a, *b) {{
+        (Number::F64(f), Number::F64(g)) => r is F64 && r->F64_0@ == {fr},
+        (Number::F64(f), Number::Dual(d)) => r is Dual && {call('post', 'f64', 'dual', '&f', '&d', '&r->Dual_0')},
+        (Number::F64(f), Number::Dual2(d)) => r is Dual2 && {call('post', 'f64', 'dual2', '&f', '&d', '&r->Dual2_0')},
+        (Number::Dual(d), Number::F64(g)) => r is Dual && {call('post', 'dual', 'f64', '&d', '&g', '&r->Dual_0')},
+        (Number::Dual(d), Number::Dual(e)) => r is Dual && {call('post', 'dual', 'dual', '&d', '&e', '&r->Dual_0')},
+        (Number::Dual(_), Number::Dual2(_)) => true,
+        (Number::Dual2(d), Number::F64(g)) => r is Dual2 && {call('post', 'dual2', 'f64', '&d', '&g', '&r->Dual2_0')},
+        (Number::Dual2(_), Number::Dual(_)) => true,
+        (Number::Dual2(d), Number::Dual2(e)) => r is Dual2 && {call('post', 'dual2', 'dual2', '&d', '&e', '&r->Dual2_0')},
+    }}"""
+    NF_req = f"""match *a {{
+        Number::F64(f) => {"b@ != 0real" if nz else "true"},
+        Number::Dual(d) => {call('req', 'dual', 'f64', '&d', 'b')},
+        Number::Dual2(d) => {call('req', 'dual2', 'f64', '&d', 'b')},
+    }}"""
+    NF_post = f"""match *a {{
+        Number::F64(f) => r is F64 && r->F64_0@ == {rexpr.format(x="f@", y="b@")},
+        Number::Dual(d) => r is Dual && {call('post', 'dual', 'f64', '&d', 'b', '&r->Dual_0')},
+        Number::Dual2(d) => r is Dual2 && {call('post', 'dual2', 'f64', '&d', 'b', '&r->Dual2_0')},
+    }}"""
+    FN_req = f"""match *b {{
+        Number::F64(f) => {"f@ != 0real" if nz else "true"},
+        Number::Dual(d) => {call('req', 'f64', 'dual', 'a', '&d')},
+        Number::Dual2(d) => {call('req', 'f64', 'dual2', 'a', '&d')},
+    }}"""
+    FN_post = f"""match *b {{
+        Number::F64(f) => r is F64 && r->F64_0@ == {rexpr.format(x="a@", y="f@")},
+        Number::Dual(d) => r is Dual && {call('post', 'f64', 'dual', 'a', '&d', '&r->Dual_0')},
+        Number::Dual2(d) => r is Dual2 && {call('post', 'f64', 'dual2', 'a', '&d', '&r->Dual2_0')},
+    }}"""
+    return NN_req, NN_post, NF_req, NF_post, FN_req, FN_post
+
+
+def emit_number(op):
+    file, Tr, m, rexpr, nn, nf, fn_, comm = NUMOPS[op]
+    NN_req, NN_post, NF_req, NF_post, FN_req, FN_post = num_specs(op)
+    out = []
+    def block(macro, k, name, A, B, req, post, commutative, refuse=False):
+        s = []
+        if not refuse:
+            s.append(f"pub closed spec fn {name}_req(a: {A}, b: {B}) -> bool {{\n    {req}\n}}\n")
+            s.append(f"pub closed spec fn {name}_post(a: {A}, b: {B}, r: &Number) -> bool {{\n    {post}\n}}\n\n")
+        s.append(f"//@ extract rust/dual/dual_ops/{file}.rs :: macro {macro} #{k}\n")
+        s.append(f"//@ rename {name}{'__refusal' if refuse else ''}\n")
+        s.append("//@ props C18\n")
+        s.append("//@ opt ufcs float_lits" + (" refuse" if refuse else "") + "\n")
+        s.append("//@ subst `f64` => `R64` optional\n")
+        s.append("//@ sig\n")
+        if refuse:
+            s.append("    requires number_mixed(a, b)\n    ensures false\n")
+        else:
+            s.append(f"    requires {name}_req(a, b)\n    ensures {name}_post(a, b, &r)\n")
+        s.append("//@ end\n")
+        if not refuse:
+            s.append(f"//@ forward {Tr} {m} {name} {A} {B} Number{' commutative' if commutative else ''}\n")
+        s.append("\n")
+        return "".join(s)
+    out.append(f"// ---- Number {op}\n")
+    out.append(block(nn[0], nn[1], f"op_{op}_number_number", "&Number", "&Number", NN_req, NN_post, False))
+    out.append(block(nn[0], nn[1], f"op_{op}_number_number", "&Number", "&Number", NN_req, NN_post, False, refuse=True))
+    out.append(block(nf[0], nf[1], f"op_{op}_number_f64", "&Number", "&R64", NF_req, NF_post, comm))
+    if fn_:
+        out.append(block(fn_[0], fn_[1], f"op_{op}_f64_number", "&R64", "&Number", FN_req, FN_post, False))
+    return "".join(out)
+
+
 def unop(file, macro, k, name, Tr, m, A, C, req, post, props):
     OPS.append(dict(unary=True, file=file, macro=macro, k=k, name=name, Tr=Tr, m=m, A=A, C=C, req=req, post=post, props=props))
 
@@ -202,6 +308,8 @@ def main():
     out = HEADER + "".join(emit(o) for o in OPS)
     tail_path = os.path.join(ROOT, "contracts", "dual_ops_tail.vx")
     out += "//@ include contracts/dual_ops_tail.vx\n" if os.path.exists(tail_path) else ""
+    out += "\n//@ include contracts/dual_ops_number_head.vx\n\n"
+    out += "".join(emit_number(op) for op in ["add", "sub", "mul", "div", "rem"])
     out += "\n//@ canary\n"
     open(os.path.join(ROOT, "contracts", "dual_ops.vx"), "w").write(out)
     print("wrote contracts/dual_ops.vx:", len(OPS), "operator bodies")
